@@ -1,4 +1,4 @@
-// C15 finding (completeness), polymorphic variant: `Pair[i64, Bool]` is only reached through the
+// C15 regression input (instance-order defect, fixed by d524b1f), polymorphic variant: `Pair[i64, Bool]` is only reached through the
 // result type of the destructor `both` at the instance `Lazy[i64, Bool]`.
 data Bool { True, False }
 data Pair[A, B] { Tup(fst: A, snd: B) }
